@@ -92,8 +92,34 @@ func c08SequencesOver(ops []string, maxLen int) [][]string {
 
 // c08Build turns an operation sequence into a program; name is "x" (package-level variable),
 // "p" (parameter) or "fmt" (imported package name shadowed by a local).
+// c08DeclForm selects how the operation D (and the if-header declaration) declares the name: 0 name := v; 1 in a
+// declaration of two names (name, aux := v, 0; aux, name := 0, v) where aux is new; 2 from a call with two results;
+// 3 from a comma-ok map lookup. In every form the declaration sits in a block that has not declared the name yet, so
+// it introduces a new variable there (Go redeclares only names of the SAME block).
+var c08DeclForm = 0
+
 func c08Build(seq []string, name string, id string) *Prog {
 	p := &Prog{ID: id, Pkg: "main", Main: "Main"}
+	naux := 0
+	declStmt := func(n string, val *E) *S {
+		naux++
+		aux := fmt.Sprintf("aux%d", naux)
+		switch c08DeclForm {
+		case 1:
+			if naux%2 == 0 {
+				return &S{K: "decl", Names: []string{aux, n}, Exprs: []*E{lit(TInt, 0), val}}
+			}
+			return &S{K: "decl", Names: []string{n, aux}, Exprs: []*E{val, lit(TInt, 0)}}
+		case 2:
+			return &S{K: "decl", Names: []string{n, aux}, Exprs: []*E{{K: "call", Fn: "two", NRes: 2, Args: []*E{val}}}}
+		case 3:
+			return &S{K: "decl", Names: []string{n, aux}, Exprs: []*E{{K: "mapget", Ty: TInt, Ok: true, X: &E{K: "maplit", Ty: MapOf(TInt, TInt), Keys: []*E{lit(TInt, 1)}, Args: []*E{val}}, I: lit(TInt, 1)}}}
+		}
+		return &S{K: "decl", Names: []string{n}, Exprs: []*E{val}}
+	}
+	if c08DeclForm == 2 {
+		p.Funcs = append(p.Funcs, &Func{Name: "two", Params: []string{"a"}, PTypes: []*Ty{TInt}, Results: []*Ty{TInt, TInt}, Body: []*S{ret(v("a", TInt), lit(TInt, 0))}})
+	}
 	k := int64(0)
 	next := func() *E { k += 7; return lit(TInt, k) }
 	nv := 0
@@ -135,7 +161,7 @@ func c08Build(seq []string, name string, id string) *Prog {
 				top().stmts = append(top().stmts, &S{K: "decl", Names: []string{"fmt"}, Exprs: []*E{newS("T", "N", next())}})
 				break
 			}
-			top().stmts = append(top().stmts, &S{K: "decl", Names: []string{name}, Exprs: []*E{next()}})
+			top().stmts = append(top().stmts, declStmt(name, next()))
 		case "V":
 			top().stmts = append(top().stmts, &S{K: "declzero", Names: []string{name}, DeclTy: TInt})
 		case "A":
@@ -153,12 +179,20 @@ func c08Build(seq []string, name string, id string) *Prog {
 		case "oIf":
 			stack = append(stack, &frame{wrap: func(b []*S) *S { return &S{K: "if", Cond: &E{K: "bool", Ty: TBool, B: true}, Then: b} }})
 		case "oIfInit":
-			init := &S{K: "decl", Names: []string{declName}, Exprs: []*E{next()}}
+			init := declStmt(declName, next())
 			if name == "fmtS" {
 				init = &S{K: "decl", Names: []string{"fmt"}, Exprs: []*E{newS("T", "N", next())}}
 			}
+			var use []*S
+			if len(init.Names) == 2 { // Go wants every declared name used
+				for _, n := range init.Names {
+					if n != declName {
+						use = append(use, &S{K: "assign", Lhs: []*E{{K: "blank", Ty: TInt}}, Exprs: []*E{v(n, TInt)}})
+					}
+				}
+			}
 			stack = append(stack, &frame{wrap: func(b []*S) *S {
-				return &S{K: "if", Init: init, Cond: cmp(">", x(), lit(TInt, 0)), Then: append([]*S{{K: "print", Ln: true, Exprs: []*E{{K: "str", Ty: TString, S: "i"}, x()}}}, b...)}
+				return &S{K: "if", Init: init, Cond: cmp(">", x(), lit(TInt, 0)), Then: append(append([]*S{{K: "print", Ln: true, Exprs: []*E{{K: "str", Ty: TString, S: "i"}, x()}}}, use...), b...)}
 			}})
 		case "oElse":
 			stack = append(stack, &frame{wrap: func(b []*S) *S {
@@ -290,6 +324,13 @@ func checkC08(c *Ctx) {
 	// headers that declare the name itself (for name := ...; for name := range; for _, name := range)
 	progs = append(progs, c08ProgramsOver(c08OpsHeader, "/hdr", L-1, "x")...)
 	progs = append(progs, c08ProgramsOver(c08OpsHeader, "/hdr", L-2, "p")...)
+	// the same, with the declarations written as declarations of several names
+	for form := 1; form <= 3; form++ {
+		c08DeclForm = form
+		progs = append(progs, c08ProgramsOver(c08Ops, fmt.Sprintf("/form%d", form), L-1, "x")...)
+		progs = append(progs, c08ProgramsOver(c08Ops, fmt.Sprintf("/form%d", form), L-2, "p")...)
+	}
+	c08DeclForm = 0
 	for i, seq := range c08Nested(3, []string{"oIf", "oFor", "oCase", "oIfInit", "oElse"}) {
 		progs = append(progs, c08Build(seq, "x", fmt.Sprintf("c08/nested3/%d/%s", i, strings.Join(seq, "."))))
 	}
